@@ -871,6 +871,12 @@ def c11(stream, scen=None):
     for i, f in enumerate(fs):
         if f.trigger[0] == 'abort':
             return wit
+        for r in f.results:
+            # marker written by the runner from inside the first shutdown callback of a failing processor
+            if r.startswith('failobs ') and 'holds-at-failure' in r:
+                t = r.split()
+                wit.append(f'frame {i} (t={f.now}): processor {t[1]} announces its failure (part lost, nothing in process) '
+                           f'while it still holds {t[3]}, pool {t[4]}')
         if f.now is None or f.trigger[0] in ('ran', 'runbegin'):
             continue
         devs = devs_of(f.state)
@@ -1104,6 +1110,12 @@ def c17(stream, scen=None):
                     wit.append(f'frame {i}: batcher {x} (size {bsz[x]}) emits {o} with {len(lv)} parts')
                 emitted.setdefault(x, []).extend(lv)
             lastout[x] = o
+            ip = d.slot('inprog')
+            if ip is not None and bsz[x] is not None and bsz[x] >= 1:
+                nk = len(parts.get(ip, {}).get('kids') or [])
+                if nk >= bsz[x]:
+                    wit.append(f'frame {i}: batcher {x} (size {bsz[x]}) keeps {nk} parts in its unfinished batch {ip}: '
+                               f'a full batch was not completed')
             em = emitted.get(x, [])
             ar = arrived.get(x, [])
             if em != ar[:len(em)]:
